@@ -19,6 +19,20 @@ fn aff_eq_mod_lattice(a: &Aff, b: &Aff) -> bool {
     a.m == b.m && mod1_eq(a.t[0], b.t[0]) && mod1_eq(a.t[1], b.t[1])
 }
 
+/// The operation strings a user might give for the table of `donor` (plain crystallographic
+/// notation, independent of the crate's own tables).
+fn ita_strings_for_user_group(donor: &str) -> Vec<&'static str> {
+    match donor {
+        "p1" => vec!["x,y"],
+        "p2" => vec!["x,y", "-x,-y"],
+        "p1m1" => vec!["x,y", "-x,y"],
+        "p1g1" => vec!["x,y", "-x,y+1/2"],
+        "p2mm" => vec!["x,y", "-x,-y", "-x,y", "x,-y"],
+        "p2mg" => vec!["x,y", "-x,-y", "-x+1/2,y", "x+1/2,-y"],
+        _ => vec!["x,y", "-x,-y", "-x+1/2,y+1/2", "x+1/2,-y+1/2"],
+    }
+}
+
 pub fn c16(tier: Tier) -> ! {
     let mut run = Run::new("C16", tier, "exploration");
     run.set(
@@ -33,8 +47,51 @@ pub fn c16(tier: Tier) -> ! {
     let angles = [std::f64::consts::PI / 6., 1., 1.3, std::f64::consts::PI / 2.];
     // three passes over the table on one thread (forward, reverse, forward): what a name yields
     // must not depend on what was asked for before
-    let order: Vec<&str> = GROUP_NAMES.iter().cloned().chain(GROUP_NAMES.iter().rev().cloned()).chain(GROUP_NAMES.iter().cloned()).collect();
+    // (a fourth pass follows sites built on this thread for user-made groups that reuse each
+    // built-in name with another group's table: a name asked for afterwards still yields its own)
+    let order: Vec<&str> = GROUP_NAMES.iter().cloned().chain(GROUP_NAMES.iter().rev().cloned()).chain(GROUP_NAMES.iter().cloned()).chain(GROUP_NAMES.iter().cloned()).collect();
+    let mut user_made = 0u64;
+    // the same on a thread that has never seen a built-in group: user-made groups first (every
+    // built-in name with another group's table), then the built-in names
+    let fresh: Vec<(String, Vec<Aff>)> = std::thread::spawn(|| {
+        let mut out = vec![];
+        for (k, reused) in GROUP_NAMES.iter().enumerate() {
+            let donor = GROUP_NAMES[(k + 3) % GROUP_NAMES.len()];
+            let table: Vec<&str> = ita_strings_for_user_group(donor);
+            let user = packing::wallpaper::WallpaperGroup { name: reused, family: packing::CrystalFamily::Monoclinic, wyckoff_str: table };
+            let _ = WyckoffSite::new(&user);
+        }
+        for name in GROUP_NAMES.iter() {
+            if let Ok(g) = get_wallpaper_group(wallpaper_enum(name)) {
+                if let Ok(site) = WyckoffSite::new(&g) {
+                    out.push((name.to_string(), site.symmetries.iter().map(Aff::from_t2).collect()));
+                }
+            }
+        }
+        out
+    })
+    .join()
+    .unwrap_or_else(|_| machinery_error("the fresh-thread pass panicked"));
+    for (name, ops) in fresh.iter() {
+        evals += 1;
+        let ita: Vec<Aff> = ita_ops(name).iter().map(|o| o.as_aff()).collect();
+        if ops.len() != ita.len() || ops.iter().any(|o| ita.iter().filter(|i| aff_eq_mod_lattice(o, i)).count() != 1) {
+            run.fail(None, &format!("{}: asked for on a thread that had first built sites for user-made groups reusing the built-in names, the operations are not the general positions of the group", name), json!({"group": name, "engine": "after-user-made", "parsed_ops": ops.iter().map(|o| json!({"m": o.m, "t": o.t})).collect::<Vec<_>>()}));
+        }
+    }
+    run.set("groups_asked_for_after_user_made_groups_on_a_fresh_thread", fresh.len() as u64);
     for (oi, name) in order.iter().enumerate() {
+        if oi == 3 * GROUP_NAMES.len() {
+            for (k, reused) in GROUP_NAMES.iter().enumerate() {
+                let donor = GROUP_NAMES[(k + 3) % GROUP_NAMES.len()];
+                if let Ok(dg) = get_wallpaper_group(wallpaper_enum(donor)) {
+                    let user = packing::wallpaper::WallpaperGroup { name: reused, family: dg.family.clone(), wyckoff_str: dg.wyckoff_str.clone() };
+                    if let Ok(site) = WyckoffSite::new(&user) {
+                        user_made += 1;
+                    }
+                }
+            }
+        }
         // the second pass runs with every log statement of the crate switched on
         crate::common::logging(oi >= GROUP_NAMES.len() && oi < 2 * GROUP_NAMES.len());
         let group = match get_wallpaper_group(wallpaper_enum(name)) {
@@ -289,6 +346,7 @@ pub fn c16(tier: Tier) -> ! {
     run.set("group_family_pairings_in_states", paired);
     run.set("name_spellings_read", spellings.len() as u64);
     run.set("name_spellings_accepted", accepted);
+    run.set("sites_built_for_user_made_groups_reusing_a_built_in_name", user_made);
     run.set("evaluations", evals);
     run.set("distinct_nontrivial", distinct);
     run.set("exhaustive", true);
